@@ -275,14 +275,17 @@ def r06_2(ctx):
             rd = try_ok_edges(wo, lib, ("<std::io::BufReader<R> as std::io::Read>::read_exact", "std::io::Read::read_exact"))
             # buffer handed to read_exact
             bufs = set()
+            # (a fresh vector per chunk, or a scratch vector kept in the Verify value and resized per chunk)
+            bkey = lambda l: (l.kind, l.bb) if l.kind in ("call", "aggregate", "other") else \
+                (("field", tuple(n for (o, v, n) in C.pl_fields(l.data))[-1:]) if l.kind == "field" else None)
             for bb, t in calls_to(wo, ("<std::io::BufReader<R> as std::io::Read>::read_exact", "std::io::Read::read_exact")):
                 for l in C.trace(wo, t["args"][1], through_fields=True):
-                    if l.kind in ("call", "aggregate", "other"):
-                        bufs.add((l.kind, l.bb))
+                    if bkey(l) is not None and bkey(l) != ("field", ("out",)):
+                        bufs.add(bkey(l))
 
             def is_buf(t, i):
                 lv = C.trace(wo, t["args"][i], through_fields=True)
-                return any((l.kind, l.bb) in bufs for l in lv)
+                return any(bkey(l) in bufs for l in lv)
 
             def is_out(t, i):
                 return any(l.kind == "param" and l.data == p_output for l in C.trace(wo, t["args"][i]))
@@ -620,6 +623,33 @@ def r07_6(ctx):
             else:
                 ctx.violation([b.name, "mode-dependent-parse", what], "directive parsing depends on the mode: `%s` in %s happens only in mode(s) %s, so "
                               "clean and build can disagree about which lines belong to a directive" % (what, role_name, sorted(lm)), site=ctx.site(b, bb))
+        # .. and the ORDER of these events is the same in every mode: what can follow a parse event (the next read, a detection, a store, a
+        # value being returned) before any other event does not depend on the Mode — a line read and then dropped in Clean only (a "fast
+        # path" skipping plain lines) would hide the line that ends a multi-line directive from the parser
+        me = mo.mode_edges(b)
+        if me:
+            ev = {bb for bb, what in sites}
+            ev |= {bb for bb, si, st in b.stmts() if st["k"] == "assign" and st["lhs"]["l"] == 0}
+            ev |= {bb for bb, t in b.calls() if t["dest"]["l"] == 0}
+            ev_out = out_edges(b, sorted(ev))
+            rel = {}
+            for v in sorted(mo.all):
+                cut = {eid for eid, vs in me.items() if v not in vs}
+                r = {}
+                for e in sorted(ev):
+                    reach = C.after_edges(b, set(out_edges(b, [e])) - cut, cut=cut | set(ev_out))
+                    r[e] = frozenset(x for x in ev if x in reach)
+                rel[v] = r
+            ref = sorted(mo.all)[0]
+            differs = [(e, v) for v in sorted(mo.all) for e in sorted(ev) if rel[v][e] != rel[ref][e]]
+            if differs:
+                e, v = differs[0]
+                ctx.violation([b.name, "mode-dependent-parse-order"], "what follows the parse event at %s in %s depends on the mode (%s vs %s): clean and "
+                              "build can disagree about which lines the directive parser sees" % (ctx.site(b, e)["loc"], role_name, v, ref), site=ctx.site(b, e))
+            else:
+                ctx.ok("%s|event order is mode-independent" % role_name, site=ctx.site(b, 0))
+        else:
+            ctx.ok("%s|no mode-dependent edge" % role_name, site=ctx.site(b, 0))
 
 
 @rule("C07", "R07.8", floor=1)
@@ -742,6 +772,11 @@ FORWARD_NEUTRAL = {
     "<std::result::Result<T, C> as error_stack::ResultExt>::change_context",
     "<std::result::Result<T, error_stack::Report<C>> as error_stack::ResultExt>::attach_printable_lazy",
     "<std::result::Result<T, error_stack::Report<C>> as error_stack::ResultExt>::attach_printable",
+    "<std::result::Result<T, error_stack::Report<C>> as error_stack::ResultExt>::attach_lazy",
+    "<std::result::Result<T, error_stack::Report<C>> as error_stack::ResultExt>::attach",
+    # the same methods named through the trait (inside a generic extension method `fn ctx(self, ..) where Self: ResultExt`)
+    "error_stack::ResultExt::change_context_lazy", "error_stack::ResultExt::change_context", "error_stack::ResultExt::attach_printable_lazy",
+    "error_stack::ResultExt::attach_printable", "error_stack::ResultExt::attach_lazy", "error_stack::ResultExt::attach",
     "std::result::Result::<T, E>::map_err",
     "<std::result::Result<T, F> as std::ops::FromResidual<std::result::Result<std::convert::Infallible, E>>>::from_residual",
     "<std::vec::Vec<T, A> as std::ops::Deref>::deref", "std::vec::Vec::<T, A>::as_slice",
@@ -1166,3 +1201,50 @@ def r08_4(ctx):
                       "timestamps" % (names[0], b.name), site=ctx.site(b, bb))
     if n == 0:
         ctx.ok("no timestamp / wall-clock API is mentioned in the library")
+
+
+EXIST_PROBES = ("std::path::Path::exists", "std::path::Path::try_exists", "std::path::Path::is_file", "std::fs::exists")
+
+
+@rule("C08", "R08.6", floor=2)
+def r08_6(ctx):
+    """whether a build succeeds does not depend on what an earlier run left behind: where try_resolve / the temp writer ask whether the
+    target already exists, neither answer leads to an error that the function makes up itself — the only failures behind such a probe are
+    those of the IO calls it guards (create, read, write, remove). A refusal placed on the "does not exist yet" edge only (a path-escape
+    check before creating the file) makes the first build fail and every later one succeed."""
+    lib = ctx.lib
+    FRESH = ("error_stack::Report::<C>::new", "<error_stack::Report<C> as std::convert::From<C>>::from")
+    n = 0
+    for role in ("try_resolve", "write_temp_file"):
+        b = body(ctx, role)
+        if not b:
+            continue
+        probes = bool_call_edges(b, lib, EXIST_PROBES, True) | bool_call_edges(b, lib, EXIST_PROBES, False)
+        if not probes:
+            if role == "try_resolve":
+                ctx.unverified("try_resolve has no existence probe in the reviewed shape (exists / try_exists / is_file)", site=ctx.site(b, 0))
+            continue
+        carriers = ret_carriers(b)
+        bad = None
+        for bb, si, st in b.stmts():
+            if not (st["k"] == "assign" and st["rv"]["k"] == "aggregate" and st["rv"]["agg"].get("adt") == "std::result::Result"
+                    and st["rv"]["agg"].get("variant") == "Err" and st["lhs"]["l"] in carriers):
+                continue
+            lv = C.trace(b, st["rv"]["ops"][0], through_decorators=True)
+            fresh = [l for l in lv if l.kind == "call" and C.callee_name(l.data) in FRESH and
+                     not any(x.kind == "errpayload" for x in C.trace(b, l.data["args"][0], through_decorators=True))]
+            if not fresh:
+                continue
+            # one-sided: reachable past one answer of a probe but not past the other
+            for sbb in {e[0] for e in probes}:
+                es = [e for e in probes if e[0] == sbb]
+                others = {eid for eid, s_, lab in b.edges(sbb)} - set(es)
+                for side in (set(es), others):
+                    if side and C.guarded(b, bb, side) and not C.guarded(b, bb, {eid for eid, s_, lab in b.edges(sbb)} - side):
+                        bad = (bb, sbb)
+        n += 1
+        if bad:
+            ctx.violation([b.name, "error-by-existence"], "%s makes up an error of its own on one side of an existence probe (%s): the verdict of a "
+                          "build then depends on whether the target was already there" % (role, ctx.site(b, bad[1])["loc"]), site=ctx.site(b, bad[0]))
+        else:
+            ctx.ok("%s|no self-made error depends on an existence probe" % role, site=ctx.site(b, min(e[0] for e in probes)))
